@@ -764,8 +764,8 @@ def specDefine : SpecDefine := fun current d extensible =>
           else some (.data (d.value.getD 0) (d.writable.getD false) e' c')
         else
           if !cur.configurable &&
-             ((match d.getter with | some g' => g' != g | none => false) ||
-              (match d.setter with | some s' => s' != s | none => false)) then none
+             ((match d.getter with | some g' => g != g' | none => false) ||
+              (match d.setter with | some s' => s != s' | none => false)) then none
           else some (.acc (d.getter.getD g) (d.setter.getD s) e' c')
 
 /-! ## Sort (builtin_array.go:1758 `arraySortCtx`)
@@ -827,5 +827,30 @@ def merge (less : α → α → Bool) : List α → List α → List α
   | x :: l, y :: r =>
     if less y x then y :: merge less (x :: l) r else x :: merge less l (y :: r)
 termination_by l r => l.length + r.length
+
+/-! ### sort under an adversarial comparator
+
+After 88d0e7d `arrayproto_sort` sorts a private copy; the comparator is user code that may do
+anything to the receiver (shrink it, grow it, switch its storage) — modelled as a state `σ`
+threaded through every call.  The sort itself only ever touches the copy. -/
+
+def insertRevM (cmp : σ → α → α → Bool × σ) (x : α) : List α → σ → List α × σ
+  | [], s => ([x], s)
+  | y :: t, s =>
+    let r := cmp s x y
+    if r.1 then
+      let q := insertRevM cmp x t r.2
+      (y :: q.1, q.2)
+    else (x :: y :: t, r.2)
+
+def isortRevM (cmp : σ → α → α → Bool × σ) : List α → List α → σ → List α × σ
+  | acc, [], s => (acc, s)
+  | acc, x :: t, s =>
+    let q := insertRevM cmp x acc s
+    isortRevM cmp q.1 t q.2
+
+def isortM (cmp : σ → α → α → Bool × σ) (l : List α) (s : σ) : List α × σ :=
+  let q := isortRevM cmp [] l s
+  (q.1.reverse, q.2)
 
 end GojaModel.C07
